@@ -799,7 +799,8 @@ PROPS = {
         "props_module": "HdModel.Props.C19",
         "class_prefix": ["C19/", "C03/"],
         "theorems": ["Hd.Timeout.C19_result", "Hd.Timeout.C19_no_early_timeout", "Hd.Timeout.C19_inner_first",
-                     "Hd.Timeout.C19_inner_unchanged", "Hd.Builder.C19_with_timeout_in_effect", "Hd.Builder.timeout_survives"],
+                     "Hd.Timeout.C19_inner_unchanged", "Hd.Builder.C19_with_timeout_in_effect", "Hd.Builder.timeout_survives",
+                     "Hd.Timeout.C19_late_poll_resolves"],
         "streams": [
             {"name": "to", "quick": 6000, "thorough": 200000, "sep": None, "head": 5, "unit": 1,
              "nontrivial": to_nontrivial, "distribution": to_dist},
